@@ -44,7 +44,8 @@ CHECKS = {
         "under an explicit decidable precondition (joinTwoVertices_consistent; each part of the precondition shown necessary by a witness; "
         "chains of merges — finding D17 — are machine-checked counterexamples). The generate_mesh merge loop as a whole preserves consistency "
         "when the collected pairs are pairwise vertex-disjoint and proper (generateMesh_true_consistent; both hypotheses shown necessary by "
-        "witnesses). Chains of merges and the skeleton clean-up have no preservation theorem (pending): for them the claim rests on the "
+        "witnesses). Chains of merges have no preservation theorem (D17); the skeleton clean-up preserves four of the five clauses (cleanup_dicts_partial, "
+        "Props/C15cleanup.lean), the clause 'consecutive cycle vertices are joined' through the triangle/T3 steps is pending: for these the claim rests on the "
         "per-run evaluation on parsed, generated and "
         "resampled meshes (shipped files, generated dumps, rasterised skeletons thinned and as drawn, tessellations, WKT).",
    design_ref="DESIGN.md §7 C09",
@@ -164,7 +165,10 @@ CHECKS = {
         "(one vertex per distinct pixel position in first-occurrence order, no mesh edge twice in either direction, every contour step "
         "incl. the closing one joined by a stored edge, every cell cycle = its contour through the interning, one cell per contour, and "
         "the dictionaries form a consistent mesh, also with mirror_y), structural lemmas of the clean-up (unfolding, cell keys, the CPython "
-        "pinned-last-edge behaviour behind finding D16 with a witness). Checked per run, not proved: the executable model of the whole "
+        "pinned-last-edge behaviour behind finding D16 with a witness), and preservation theorems for the clean-up (Props/C15cleanup.lean): an "
+        "invariant (keys, own-edge / own-cell lists, live references, no repeated vertex) holds initially and is preserved by every elementary "
+        "and composite clean-up step; through the whole clean-up four of the five consistency clauses hold on the result when finding D16's "
+        "condition is absent (cleanup_dicts_partial); the fifth (consecutive cycle vertices joined) is pending. Checked per run, not proved: the executable model of the whole "
         "create_lattice (triangle loop, get_artifacts, grouping, do_t3_transition, isolated cells, with CPython's reference-count and "
         "list-mutation semantics) equals the real code on OpenCV's actual contour lists (all dictionaries, flags, exception kinds, exactly); "
         "the pipeline Skeleton -> create_lattice -> generate_mesh -> Frame gives one cell per enclosed region, border flags, internal "
@@ -227,7 +231,11 @@ CHECKS = {
    text="Theorems: with exact resultants b = A tau and sum tau = n the vector (tau, 0) solves the augmented system exactly and, with an injective "
         "augmented matrix, is the only minimiser over non-negative candidates; the non-negative least-squares fit is non-expansive in the right-hand "
         "side (||M z' - M z||^2 <= ||b' - b||^2 for certified solutions) and three-decimal rounding moves b by at most len*(5e-4)^2 — this is the "
-        "tolerance implied by the rounding. Independence of numbering and time steps: C12 small-motion theorem + C13 finite differences. Per run: "
+        "tolerance implied by the rounding. End to end in the model (Props/C03matrix.lean): with exact stored tangents and every kept junction's "
+        "velocity equal to the resultant of the tensions pulling on it, the assembled matrix times the tension vector is exactly the right-hand "
+        "side set_velocity_matrix places (assembled_dynamic_balance), any non-negative minimiser of the augmented residual is that tension vector "
+        "(dynamic_inference_recovers_tensions), and the right-hand side does not depend on the step length (dynamic_rhs_step_independent). "
+        "Independence of numbering: C12 small-motion theorem + C13 finite differences + C07 build_mapV. Per run: "
         "series built around the tested frame (first/middle/last) from closed-form tangents and arbitrary positive tensions, every frame "
         "renumbered, unequal steps, all back-ends: recovered tensions within (rounding + coefficient tolerance)/sigma_min, certificate checked exactly.",
    design_ref="DESIGN.md §7 C03",
@@ -251,7 +259,10 @@ CHECKS = {
         "up to reversal, least squares does not depend on the order of equations and unknowns; plus C02 vectorFromVertex_reverse and C04 "
         "row_joint_flip/row_swap_cells. Per run: one physical tissue stored in several ways (ids with gaps, cycle shifts, any subset of cells "
         "reversed, construction order shuffled): same interface set, equations, tensions, pressures; each storage's interface list against the model. "
-        "End-to-end renumbering is decided by this run, not by a theorem.",
+        "End to end for vertex renumbering (Props/C07matrix.lean): for every injective renaming of vertex ids the model's interface list, angle-limited "
+        "set, coefficient rows and assembled matrix are the renamed / identical ones (build_mapV, normalisedMatrix_mapV: the solver input is "
+        "literally unchanged), and permuting columns and junction rows leaves the augmented residual at the permuted candidate unchanged "
+        "(residSq_relabel). Renumbering of mesh-edge and cell ids and the effect of dictionary order on the interface list are decided by this run, not by a theorem.",
    design_ref="DESIGN.md §7 C07",
    technique="Lean 4 permutation/reversal theorems over the cycle-split model + metamorphic differential check",
    note=BASE_NOTE),
